@@ -92,14 +92,12 @@ theorem pack_unpack_item (k : Kind) (data : List Nat) (hb : Bytes data) (hl : k.
     rw [if_neg hnl] at h
     split at h
     · cases h
-    · rename_i hasc
-      simp only [Except.ok.injEq, Prod.mk.injEq] at h
+    · simp only [Except.ok.injEq, Prod.mk.injEq] at h
       obtain ⟨rfl, -⟩ := h
-      have hasc' : (data.take m).any (· ≥ 128) = false := by simpa using hasc
       obtain ⟨p1, p2⟩ := stripNuls_pad (data.take m)
       have hlen : (data.take m).length = m := by simp; omega
       rw [hlen] at p1 p2
-      simp only [Kind.pack, stripNuls_ascii _ hasc', Bool.false_eq_true, if_false, Kind.image, Kind.width]
+      simp only [Kind.pack, Kind.image, Kind.width]
       have : ¬ (stripNuls (data.take m)).length > m := by omega
       rw [if_neg this, p1]
 
